@@ -771,6 +771,7 @@ pub fn families(tier: &str) -> Vec<Box<dyn Family>> {
 
     let mut v: Vec<Box<dyn Family>> = fams.into_iter().map(|f| Box::new(f) as Box<dyn Family>).collect();
     v.push(Box::new(SameExecutableTwice));
+    v.push(Box::new(WriteFailsForOneTarget));
     v
 }
 
@@ -882,6 +883,102 @@ impl SameExecutableTwice {
             let k = k - 16;
             (vec![(k % 4) as usize, ((k / 4) % 4) as usize, (k / 16) as usize], failing)
         }
+    }
+}
+
+
+// ------------------------------------------------------------------------------------------------------------
+// A write that fails for ONE file of a healthy reply (the directory is fine): reported, and the other files of the
+// same reply - and of the other generators - are still written.
+
+pub struct WriteFailsForOneTarget;
+impl Family for WriteFailsForOneTarget {
+    fn name(&self) -> String {
+        "write-fails-for-one-file/a healthy reply of three files whose middle target cannot be written (a link to /dev/full: created, then no space; an existing directory; a link to a missing directory) x with / without -O x alone / before / after a second healthy generator: the failure is reported with the path, the exit status is non-zero, every other file is written".into()
+    }
+    fn len(&self) -> u64 {
+        3 * 2 * 3
+    }
+    fn hang_secs(&self) -> f64 {
+        60.0
+    }
+    fn describe(&self, idx: u64) -> Value {
+        let obstacle = ["link to /dev/full", "existing directory", "link into a missing directory"][(idx % 3) as usize];
+        let neighbour = ["none", "before", "after"][(idx / 6) as usize];
+        json!({"obstacle": obstacle, "dash_O": (idx / 3) % 2 == 1, "neighbour": neighbour})
+    }
+    fn run(&self, idx: u64) -> CaseOut {
+        let obstacle = idx % 3;
+        let dash_o = (idx / 3) % 2 == 1;
+        let neighbour = idx / 6;
+        let mut out = CaseOut::new(hash_str(&format!("wf{idx}")));
+        out.validated = 1;
+        out.nontrivial = true;
+        let dir = if dash_o { "out/" } else { "" };
+        let files = vec![proc::rfile("first.txt", "first\n"), proc::rfile("blocked.txt", "cannot be written\n"), proc::rfile("last.txt", "last\n")];
+        let other = proc::rfile("other.txt", "from the other generator\n");
+        let mut sc = Scenario::default();
+        sc.tree.push(("a.slice".into(), Node::File(SMALL_INPUT.as_bytes().to_vec())));
+        if dash_o {
+            sc.tree.push(("out".into(), Node::Dir));
+        }
+        sc.tree.push((
+            format!("{dir}blocked.txt"),
+            match obstacle {
+                0 => Node::Symlink("/dev/full".into()),
+                1 => Node::Dir,
+                _ => Node::Symlink("no-such-directory/target.txt".into()),
+            },
+        ));
+        let healthy = |files: &[RFile]| Install::Script(Script(vec![Step::ReadAll, Step::Stdout(proc::encode_reply(files, &[])), Step::Exit(0)]));
+        sc.argv = vec!["a.slice".into()];
+        let mut gi = 0;
+        let mut add = |sc: &mut Scenario, name: &str, inst: Install| {
+            sc.gens.push(Gen { name: name.into(), install: inst });
+            sc.argv.push("-G".into());
+            sc.argv.push(format!("{{gen{gi}}}"));
+            gi += 1;
+        };
+        if neighbour == 1 {
+            add(&mut sc, "other", healthy(&[other.clone()]));
+        }
+        add(&mut sc, "writer", healthy(&files));
+        if neighbour == 2 {
+            add(&mut sc, "other", healthy(&[other.clone()]));
+        }
+        if dash_o {
+            sc.argv.extend(["-O".to_string(), "out".to_string()]);
+        }
+        let obs = proc::run(&sc, Duration::from_secs(20));
+        let ctx = || format!("argv {:?}; exit {:?}; stderr {}; paths after: {:?}", obs.argv, obs.exit_code, truncate(&proc::show_bytes(&obs.stderr), 500), obs.after.keys().collect::<Vec<_>>());
+        if obs.timed_out || obs.signal.is_some() || obs.panic_location().is_some() {
+            out.violate("c18/write-fails-for-one-file/crash-or-hang", ctx());
+            return out;
+        }
+        let errors = obs.error_lines();
+        if !errors.iter().any(|l| l.contains("blocked.txt")) {
+            out.violate("c18/write-fails-for-one-file/failure-not-reported", format!("no error line mentions blocked.txt. {}", ctx()));
+        }
+        if obs.exit_code == Some(0) {
+            out.violate("c18/write-fails-for-one-file/exit-status-zero", ctx());
+        }
+        let mut expected = vec![("first.txt", "first\n"), ("last.txt", "last\n")];
+        if neighbour != 0 {
+            expected.push(("other.txt", "from the other generator\n"));
+        }
+        for (name, contents) in expected {
+            let p = format!("{dir}{name}");
+            if obs.after.get(&p).map(|e| e.contents.as_slice()) != Some(contents.as_bytes()) {
+                out.violate("c18/write-fails-for-one-file/other-file-not-written", format!("{p} must hold the bytes its generator sent. {}", ctx()));
+            }
+        }
+        for l in &errors {
+            if !l.contains("blocked.txt") {
+                out.violate("c18/write-fails-for-one-file/unexplained-error-line", format!("{l:?}. {}", ctx()));
+            }
+        }
+        out.class = format!("obstacle{obstacle}:exit{:?}:{}errors", obs.exit_code, errors.len());
+        out
     }
 }
 
